@@ -67,7 +67,7 @@ META = {
                     "Variable.id is unique per variable"],
     "technique": "CFG post-dominance/dominance for writer discipline + shape/dataflow matching of the renumbering loop and of each reader's offset derivation",
 }
-MIN_INSTANCES = {"R1": 17, "R2": 14, "R3": 20, "R4": 10}
+MIN_INSTANCES = {"R1": 16, "R2": 9, "R3": 20, "R4": 14}
 
 
 # ----------------------------------------------------------------------------------------------
